@@ -23,7 +23,9 @@ structure Opts where
   kind : Char
   min : Bool
   hedge : Bool
-  term : Bool
+  hedgeMs : Nat          -- the hedging delay in ms (2 unless stated)
+  term : Bool            -- IsTerminalError is set
+  termAll : Bool         -- … and answers true for every error (constant-true predicate)
   sorter : Option (List Nat)
   deriving Repr
 
@@ -34,6 +36,7 @@ structure Win where
   ret : Option String
   ctx : List Char
   tb : Nat
+  lb : Nat        -- number of hedging ticks certainly due at the end of the window (long delays only)
   bad : Bool
   deriving Repr
 
@@ -42,7 +45,7 @@ def natOf (s : String) : Nat := s.toNat?.getD 0
 def parseOpts (s : String) : Option Opts :=
   match s.splitOn " " with
   | [k, m, h, t, z] =>
-    some { kind := (k.toList.head?).getD 'q', min := m == "m1", hedge := h == "h1", term := t == "t1"
+    some { kind := (k.toList.head?).getD 'q', min := m == "m1", hedge := h != "h0", hedgeMs := (if h == "h1" then 2 else natOf (h.drop 1).toString), term := t != "t0", termAll := t == "t2"
            sorter := if z == "z-" then none else natList? (z.drop 1).toString }
   | _ => none
 
@@ -64,7 +67,7 @@ def parseTrace (s : String) : List Win :=
   let (cur, acc) := toks.foldl (fun (st : Option Win × List Win) t =>
     let (cur, acc) := st
     if t.startsWith "A" then
-      (some { act := (t.drop 1).toString, starts := [], cleans := [], ret := none, ctx := [], tb := 0, bad := false }, flush cur acc)
+      (some { act := (t.drop 1).toString, starts := [], cleans := [], ret := none, ctx := [], tb := 0, lb := 0, bad := false }, flush cur acc)
     else match cur with
       | none => (cur, acc)
       | some w =>
@@ -73,6 +76,7 @@ def parseTrace (s : String) : List Win :=
         else if t.startsWith "R" then (some { w with ret := some t }, acc)
         else if t.startsWith "X" then (some { w with ctx := (t.drop 1).toString.toList }, acc)
         else if t.startsWith "T" then (some { w with tb := natOf (t.drop 1).toString }, acc)
+        else if t.startsWith "L" then (some { w with lb := natOf (t.drop 1).toString }, acc)
         else if t == "Q!" then (some { w with bad := true }, acc)
         else (cur, acc)) (none, [])
   (flush cur acc).reverse
@@ -258,7 +262,11 @@ def showMain (off : Nat) : Main → Option String
   | .retOk rs => some ("R+" ++ showNatList (rs.map (· + off)))
   | .retErr e => some (showErr off e)
 
-def resOf (ch : Char) : Res := if ch == 'S' || ch == 's' then .ok else if ch == 'T' then .term else .err
+/-- result of a callback as the model sees it. The terminal-error predicate applies to errors only (a
+success is never terminal, whatever the predicate answers for a nil error); with the constant-true
+predicate (`termAll`) every error is terminal. -/
+def resOf (termAll : Bool) (ch : Char) : Res :=
+  if ch == 'S' || ch == 's' then .ok else if ch == 'T' || termAll then .term else .err
 
 /-- "a3E" → (3, 'E') -/
 def parseArrival (a : String) : Option (Nat × Char) :=
@@ -276,7 +284,7 @@ def stMoves (c : Cfg) (s : St) : List (MoveKind × St) :=
   (List.range c.n).flatMap (fun i => one .plain (.abort i)) ++
   (if s.pending.isEmpty then [] else one (.tick 0) .tick)
 
-def singleSys (c : Cfg) : Sys St :=
+def singleSys (c : Cfg) (termAll : Bool) : Sys St :=
   { moves := stMoves c
     delta := fun s s' => { starts := s'.started.drop s.started.length, cleans := s'.cleaned.drop s.cleaned.length
                            ret := if s.main = .running then showMain 0 s'.main else none }
@@ -284,7 +292,7 @@ def singleSys (c : Cfg) : Sys St :=
       if a == "c" then step c s .cancel
       else if a == "w" || a == "end" then some s
       else match parseArrival a with
-        | some (g, ch) => step c s (.finish g (resOf ch))
+        | some (g, ch) => step c s (.finish g (resOf termAll ch))
         | none => none
     ctxOf := fun s g => s.ctx g
     wasStarted := fun s g => s.started.contains g
@@ -305,7 +313,7 @@ def multiMoves (cs : List Cfg) (m : MSt) : List (MoveKind × MSt) :=
 
 def sortNat (l : List Nat) : List Nat := (l.toArray.qsort (· < ·)).toList
 
-def multiSys (sets : List SetD) (cs : List Cfg) : Sys MSt :=
+def multiSys (sets : List SetD) (cs : List Cfg) (termAll : Bool) : Sys MSt :=
   let offs := offsets sets
   let off (k : Nat) : Nat := offs.getD k 0
   { moves := multiMoves cs
@@ -331,7 +339,7 @@ def multiSys (sets : List SetD) (cs : List Cfg) : Sys MSt :=
       else match parseArrival a with
         | some (g, ch) =>
           let (k, i) := locate sets g
-          if ch == 'S' then mstep cs m (.set k (.finish i .ok)) else mstep cs m (.finishDone k i (resOf ch))
+          if ch == 'S' then mstep cs m (.set k (.finish i .ok)) else mstep cs m (.finishDone k i (resOf termAll ch))
         | none => none
     ctxOf := fun m g => let (k, i) := locate sets g; (m.sets k).ctx i
     wasStarted := fun m g => let (k, i) := locate sets g; (m.sets k).started.contains i
@@ -359,7 +367,7 @@ def doSys (d : DCfg) : Sys DSt :=
       if a == "c" then dstep d s .cancel
       else if a == "w" || a == "end" then some s
       else match parseArrival a with
-        | some (g, ch) => dstep d s (.finish g (resOf ch))
+        | some (g, ch) => dstep d s (.finish g (resOf false ch))
         | none => none
     ctxOf := fun s _ => s.ctxCanc
     wasStarted := fun s g => s.started.contains g
@@ -434,7 +442,7 @@ def setFailuresExceeded (sets : List SetD) (k : Nat) (arr : List Arr) : Bool :=
 def errorDue (o : Opts) (sets : List SetD) (wins : List Win) (w : Nat) : Bool :=
   let arr := arrivalsUpTo wins w
   cancelledBy wins w ||
-  (o.term && (List.range sets.length).any fun k => (relevantArrivals sets k arr).any (·.ch == 'T')) ||
+  (o.term && (List.range sets.length).any fun k => (relevantArrivals sets k arr).any (fun a => a.ch == 'T' || (o.termAll && a.ch == 'E'))) ||
   (List.range sets.length).any (fun k => setFailuresExceeded sets k arr) ||
   (o.kind != 'd' && sets.any fun s => s.za && s.maxErr > 0)
 
@@ -528,6 +536,36 @@ def judge (o : Opts) (sets : List SetD) (wins : List Win) : List String := Id.ru
               if stz.length > (zs.length - s.maxUnz) + fz.length + w.tb then bad := "too-many-zones-requested" :: bad
             else
               if st.length > (mem.length - s.maxErr) + failing.length + w.tb then bad := "too-many-requests" :: bad
+  -- hedging releases more requests as the delay passes (lower bound; only judged with a long delay,
+  -- where scheduling jitter is small compared to the delay): while the call has not returned and the
+  -- caller has not cancelled, at the end of a window at which L ticks are certainly due (L delays have
+  -- passed since the main loop was seen waiting) at least L − 1 − L/4 of them must have taken effect,
+  -- each releasing a held-back instance / zone.
+  if o.min && o.hedge && o.hedgeMs ≥ 20 && !isDo && !(sets.any fun s => s.za && s.maxErr > 0) then
+    let ri := match wins.zipIdx.find? (fun (w, _) => w.ret.isSome) with | some (_, i) => i | none => wins.length
+    for (w, i) in wins.zipIdx do
+      if i < ri && !cancelledBy wins i then
+        let tickreq := w.lb - 1 - w.lb / 4
+        let arr := arrivalsUpTo wins i
+        let startedSoFar := dedup ((wins.take (i + 1)).flatMap (·.starts))
+        for k in List.range sets.length do
+          match sets[k]? with
+          | none => pure ()
+          | some s =>
+            let mem := members sets k
+            let st := startedSoFar.filter (mem.contains ·)
+            let failing := (arr.filter fun a => isFail a.ch && mem.contains a.g).map (·.g)
+            if isZoneMode s then
+              let zs := dedup s.zones
+              let need := zs.length - s.maxUnz
+              let held := zs.length - need
+              let stz := dedup (st.map (zoneOfG sets))
+              let fz := dedup (failing.map (zoneOfG sets))
+              if stz.length < need + min held (fz.length + tickreq) then bad := "hedging-release-overdue" :: bad
+            else
+              let need := mem.length - s.maxErr
+              let held := mem.length - need
+              if st.length < need + min held (failing.length + tickreq) then bad := "hedging-release-overdue" :: bad
   return dedupS bad
 where
   dedupS (l : List String) : List String := l.foldl (fun acc x => if acc.contains x then acc else acc ++ [x]) []
@@ -555,7 +593,7 @@ def tagsOf (o : Opts) (sets : List SetD) (script : String) (wins : List Win) (du
     | none => 0
   let ticks := (wins.filter (·.act == "w")).length
   let triv := if retAt == "init" && !canc then " trivial" else ""
-  s!"k={o.kind} dupaddr={dup} mode={mode} n={min n 6} sets={sets.length} min={o.min} hedge={o.hedge} term={o.term} sorter={o.sorter.isSome} ret={ret} fails={min nf 3} cancel={canc} late={min late 2} waits={min ticks 2}{triv}"
+  s!"k={o.kind} dupaddr={dup} mode={mode} n={min n 6} sets={sets.length} min={o.min} hedge={o.hedge} delay={o.hedgeMs} term={o.term} termall={o.termAll} sorter={o.sorter.isSome} ret={ret} fails={min nf 3} cancel={canc} late={min late 2} waits={min ticks 2}{triv}"
 
 def handleQ (f : List String) : String × String × String :=
   match f with
@@ -590,7 +628,7 @@ def handleQ (f : List String) : String × String × String :=
             let cs := ss.map (toCfg o)
             let orders := (ss.zipIdx).map fun (s, k) => inferOrder o (toCfg o s) (localStarts ss k w0.starts) (localStarts ss k later)
             let m0 := minit cs orders pre
-            accept (multiSys ss cs) m0 wins
+            accept (multiSys ss cs o.termAll) m0 wins
           else
             match ss with
             | [s] =>
@@ -599,7 +637,7 @@ def handleQ (f : List String) : String × String × String :=
               let s0 := init c order pre
               let w0' := { w0 with ret := if s0.main = .running then w0.ret else (if showMain 0 s0.main == w0.ret then none else some "mismatch")
                                    cleans := w0.cleans }
-              accept (singleSys c) s0 (w0' :: wins.drop 1)
+              accept (singleSys c o.termAll) s0 (w0' :: wins.drop 1)
             | _ => "bad-sets"
         (diff, js, tags)
     | _, _ => ("bad-input", "-", "-")
